@@ -1091,6 +1091,12 @@ func (e *Engine) binop(st *State, op token.Token, a, b Val, T types.Type, in ssa
 	if isString(a.T) {
 		switch op {
 		case token.ADD:
+			// concatenation of two literals is the literal of the concatenation
+			if sa, oka := strLitVal[a.t()]; oka {
+				if sb, okb := strLitVal[b.t()]; okb {
+					return Val{T, []*Term{strLit(sa + sb)}}
+				}
+			}
 			r := App("strcat", StrSort, a.t(), b.t())
 			st.assume(Eq(strLen(r), Add(strLen(a.t()), strLen(b.t()))))
 			return Val{T, []*Term{r}}
